@@ -274,9 +274,15 @@ fn child(args: &Args, total: u64) -> Stats {
     st
 }
 
+const SUB_H2: &str = "h2pairs";
+
 pub fn run(args: &Args) -> i32 {
     if args.shard.is_some() {
-        let st = child(args, args.cases(1_000, 20_000));
+        let st = if args.only.as_deref() == Some(SUB_H2) {
+            super::h2flow::child(args, "C01", SUB_H2, args.cases(500, 10_000), false)
+        } else {
+            child(args, args.cases(1_000, 20_000))
+        };
         return engine::shard::child_finish(args, &st);
     }
     let mut ev = Evidence::new(args, "exploration");
@@ -284,8 +290,13 @@ pub fn run(args: &Args) -> i32 {
         SUB,
         "one client connection through a live worker's HTTP listener to an HTTP/1.1 mock backend: 1..4 keep-alive POST requests, request and response bodies of boundary-biased sizes (0,1,2; within 9 of 16393 / 16384 / 32768 / 65535 / 65536 / 4096 / 9; up to 256 KiB, thorough 6 MiB) of keyed content, framed with Content-Length, chunked (generated chunk sizes) or - last response - close-delimited; four generated I/O scripts (dribbles, splits, pauses, read stalls, small socket buffers). Oracle: every body byte-identical on the other side, every message ends cleanly, each request reaches the backend exactly once with its method and target. A failure is re-run on a fresh worker and only reported when it reproduces. Non-trivial: a non-empty body and (a size within 9 of a boundary, or a read stall, or scripted writes).",
     );
-    ev.assume("only the HTTP/1.1 -> HTTP/1.1 pair is built so far: HTTP/2 frontends (TLS) and h2c backends, concurrent streams and trailers are not exercised yet");
+    ev.assume("pairs exercised: h1->h1, h2->h1, h2->h2c; the h1->h2c pair and trailers are not exercised yet");
     ev.assume("kernel segmentation and epoll wake-up order are influenced (write sizes, NODELAY, pauses, buffer sizes), not dictated");
+    ev.rule(
+        SUB_H2,
+        "one HTTP/2 (TLS) client connection with 1..8 concurrent POST streams through a live worker to an HTTP/1.1 (chunked or Content-Length responses) or an h2c mock backend: request and response bodies of the same boundary-biased sizes, generated DATA frame sizes (1, 9, 16384, 16385 ...) and padding on both HTTP/2 legs, default flow-control settings. Same content oracle per stream (exact bodies, END_STREAM seen, no cross-stream mix-up) plus the HTTP/2 limits ledger. Non-trivial: a non-empty body and (a boundary size or >= 2 concurrent streams).",
+    );
     engine::shard::run_sharded(&mut ev, args, SUB, 16, Duration::from_secs(args.tier.pick(900, 5400)));
+    engine::shard::run_sharded(&mut ev, args, SUB_H2, 16, Duration::from_secs(args.tier.pick(900, 5400)));
     ev.finish()
 }
